@@ -14,6 +14,7 @@ import c05_keys  # noqa
 COMPS = ['nodes', 'elements', 'nodal_data', 'elemental_data', 'constraints', 'settings']
 COQ_COMP = ['CNodes', 'CElements', 'CNodal', 'CElemental', 'CConstraints', 'CSettings']
 SRC_DIR = lib.VERIF / 'corpus' / 'C05' / 'src'
+BASELINE = lib.VERIF / 'translate' / 'c05_baseline.json'
 SOURCES = [('fistr', 'fistr_thermal'), ('fistr', 'fistr_cload'), ('ucd', 'ucd_mixture')]
 N_SRC = len(SOURCES)
 
@@ -103,9 +104,12 @@ def result_coq(res):
     return None
 
 
-def gen_histories(ctx, cfg):
+def gen_histories(ctx, cfg, widen=False):
+    """widen: the save / read region is a baseline hand model in this run (its translator could
+    not read the tree under test): every crash point and every in-process write error of both
+    save variants and of the re-saving read, paired with every plain op"""
     r = ctx.rng
-    thorough = ctx.tier == 'thorough'
+    thorough = ctx.tier == 'thorough' or widen
     A, B, C, D = N_SRC, N_SRC + 1, N_SRC + 2, N_SRC + 3
     n_full = len(cfg['steps_full']) + 8 if cfg else 16
     ks_all = list(range(0, n_full))
@@ -132,16 +136,24 @@ def gen_histories(ctx, cfg):
         sigma += [['SC', B, 1, k] for k in km] + [['RC', 0, k] for k in kr] + [['RC', 1, kr[0]]]
         sigma += [['SX', A, 0, ka[1]], ['SXM', B, 0, kb[0]], ['RX', 0, kr[1]]]
     pairs = [(a, b) for a in sigma for b in sigma]
-    if len(pairs) > 4000:
+    cap = 4000 if ctx.tier == 'thorough' else 900
+    if len(pairs) > cap:
         # thorough alphabet: every pair with a plain op first or second, a seeded sample of the rest
         plain = [p for p in pairs if p[0][0] in ('R', 'S') or p[1][0] in ('R', 'S')]
         rest = [p for p in pairs if p not in plain]
         r.shuffle(rest)
-        pairs = plain + rest[:max(0, 4000 - len(plain))]
+        if len(plain) > cap:
+            # widened quick run: a crashing / failing op followed by every plain op, every plain pair,
+            # a seeded sample of (plain, crashing)
+            first = [p for p in plain if p[1][0] in ('R', 'S')]
+            second = [p for p in plain if p not in first]
+            r.shuffle(second)
+            plain = first + second[:max(0, cap - len(first))]
+        pairs = plain + rest[:max(0, cap - len(plain))]
     for a, b in pairs:
         add(0, [a, b, ['R', 0]], 'exhaustive-3' if len(pairs) == len(sigma) ** 2 else 'pairs-3')
     # 2. random longer histories over all sources and objects
-    n_rand = 1200 if thorough else 110
+    n_rand = 1200 if ctx.tier == 'thorough' else (300 if widen else 110)
     for _ in range(n_rand):
         src = r.randrange(N_SRC)
         n = r.randint(3, 6)
@@ -203,10 +215,10 @@ ROUNDTRIP_FEATURES = [
 ]
 
 
-def gen_roundtrips(ctx):
+def gen_roundtrips(ctx, widen=False):
     r = ctx.rng
     out = []
-    reps = 3 if ctx.tier == 'thorough' else 1
+    reps = 3 if ctx.tier == 'thorough' or widen else 1
     for feat, ov in ROUNDTRIP_FEATURES:
         for _ in range(reps):
             desc = {'seed': r.randrange(10**6), 'types': ['tet'], 'n_nodes': r.randint(10, 16),
@@ -268,9 +280,9 @@ def key_wellformed(kc):
     return okn([n for n, _ in kc['items']]) and all(okn(ts) and ts for _, ts in kc['items'])
 
 
-def gen_keycases(ctx, types):
+def gen_keycases(ctx, types, widen=False):
     r = ctx.rng
-    thorough = ctx.tier == 'thorough'
+    thorough = ctx.tier == 'thorough' or widen
     cases = []
 
     def add(c):
@@ -519,6 +531,8 @@ def main(ctx):
     ]
     # ---- 1. translate
     tie_ok, cfg = True, None
+    degraded = {}      # region -> why its translator could not read the tree under test
+    baseline = json.loads(BASELINE.read_text())
     try:
         cfg, consumed = c05_effects.translate(str(lib.REPO))
         ctx.sources = consumed
@@ -526,9 +540,23 @@ def main(ctx):
         ctx.notes['translated_cfg'] = {k: cfg[k] for k in ('steps_full', 'steps_mesh', 'read_sentinel',
                                                           'resave_sentinel', 'load_names', 'resave_mesh_read')}
     except c05_effects.TranslateError as e:
-        tie_ok = False
-        ctx.log('translator failed closed:', e)
-        ctx.notes['translator_error'] = str(e)
+        # policy (BUILDERS_R5): an unreadable region is not by itself a violation.  The last
+        # configuration read from the registered tree becomes the hand model of this run; the
+        # theorems are built against it and a WIDENED correspondence (every crash point, in-process
+        # write errors at every file effect, more round trips) decides.
+        why = str(e).split('\n')[0][:300]
+        degraded['save'] = why
+        cfg = json.loads(json.dumps(baseline['save_cfg']))
+        cfg['steps_full'] = [tuple(x) for x in cfg['steps_full']]
+        cfg['steps_mesh'] = [tuple(x) for x in cfg['steps_mesh']]
+        cfg['load_names'] = [tuple(x) for x in cfg['load_names']]
+        ctx.sources = dict(getattr(e, 'consumed', {}))
+        lib.write_if_changed(lib.COQ / 'C05' / 'gen' / 'SaveCfg.v', c05_effects.emit(cfg, origin=why))
+        ctx.log('save translator could not read the tree under test:', why,
+                '-> baseline model + widened correspondence')
+        ctx.notes['translator_error'] = str(e)[:1500]
+        ctx.notes['baseline_cfg'] = {k: cfg[k] for k in ('steps_full', 'steps_mesh', 'read_sentinel',
+                                                         'resave_sentinel', 'load_names', 'resave_mesh_read')}
     except SyntaxError as e:
         tie_ok = False
         ctx.notes['translator_error'] = 'syntax error: ' + str(e)
@@ -605,8 +633,15 @@ def main(ctx):
         ctx.notes['translated_key_cfg'] = {k: kcfg[k] for k in ('ids_test', 'data_test', 'elem_group',
                                                                 'attrs_group')}
     except c05_keys.TranslateError as e:
-        ktie_ok = False
-        ctx.log('key translator failed closed:', str(e)[:300])
+        why = str(e).split('\n')[0][:300]
+        degraded['keys'] = why
+        kcfg = json.loads(json.dumps(baseline['key_cfg']))
+        for k_ in ('ids_test', 'data_test', 'ts_test'):
+            kcfg[k_] = tuple(kcfg[k_]) if kcfg[k_] else None
+        ctx.sources.update(getattr(e, 'consumed', {}))
+        lib.write_if_changed(lib.COQ / 'C05' / 'gen' / 'KeyCfg.v', c05_keys.emit(kcfg, origin=why))
+        ctx.log('key translator could not read the tree under test:', why,
+                '-> baseline model + widened correspondence')
         ctx.notes['key_translator_error'] = str(e)[:1500]
     except SyntaxError as e:
         ktie_ok = False
@@ -697,6 +732,8 @@ def main(ctx):
 
     # generic theorems (independent of the tree under test), then the per-run ones
     ok1, log1 = ctx.build_props('C05/Props.v')
+    ok1v, log1v = ctx.build_props('C05/PropsVal.v')
+    ok1, log1 = ok1 and ok1v, log1 + log1v
     if tie_ok and cfg_ok is not None:
         ok2, log2 = ctx.build_props('C05/gen/Run.v')
     else:
@@ -723,8 +760,8 @@ def main(ctx):
     if not (proof_ok and kproof_ok):
         ctx.notes['build_log_tail'] = (log1 + log2 + log3)[-1500:]
     if ctx.tier == 'thorough' and proof_ok and kproof_ok:
-        rc, o, e, dt = lib.sh(['coqchk', '-silent', '-o', '-Q', '.', 'FV', 'FV.C05.Props', 'FV.C05.gen.Run',
-                               'FV.C05.gen.RunKeys'], cwd=lib.COQ, timeout=900)
+        rc, o, e, dt = lib.sh(['coqchk', '-silent', '-o', '-Q', '.', 'FV', 'FV.C05.Props', 'FV.C05.PropsVal',
+                               'FV.C05.gen.Run', 'FV.C05.gen.RunKeys'], cwd=lib.COQ, timeout=900)
         ctx.notes['coqchk'] = {'exit': rc, 'seconds': round(dt, 1),
                                'axioms_none': 'Axioms: <none>' in (o + e)}
         ctx.log(f'coqchk exit {rc} ({dt:.0f}s)')
@@ -743,8 +780,8 @@ def main(ctx):
         files = {COMPS[COQ_COMP.index(c)]: f for c, f in cfg['load_names']}
         sentinel = cfg['read_sentinel']
     pool = pool_descs(ctx)
-    hs = gen_histories(ctx, cfg)
-    rts = gen_roundtrips(ctx)
+    hs = gen_histories(ctx, cfg, widen='save' in degraded)
+    rts = gen_roundtrips(ctx, widen=bool(degraded))
     # corpus first
     corpus = sorted((lib.VERIF / 'corpus' / 'C05').glob('*.json'))
     for p in corpus:
@@ -754,7 +791,7 @@ def main(ctx):
         h['id'] = i
     types = kcfg['element_types'] if kcfg else ['line', 'tri', 'tri2', 'quad', 'tet', 'tet2', 'pyr', 'prism',
                                                 'hex', 'hex2', 'hexprism']
-    kcs = gen_keycases(ctx, types)
+    kcs = gen_keycases(ctx, types, widen='keys' in degraded)
     ctx.log(f'{len(hs)} histories, {len(rts)} round trips, {len(kcs)} key-scheme cases')
     tws = gen_twice(ctx)
     out = run_impl(ctx, files, hs, rts, pool, kcs, tws)
@@ -913,6 +950,124 @@ def main(ctx):
                           what=f"round trip of an object with feature {rt['feature']}: {r.get('exc') or r.get('diff')}") else 1
     ctx.notes['roundtrip_failures'] = n_rt_bad
 
+    # ---- 7c. value-level model (ValModel.comp_dict): for every saved object, the keys of every cache
+    #          file (np.load(...).files, in order) against the model's dictionaries of a tagged object
+    #          with the same labels, evaluated in Coq
+    vlines, n_val_files = [], 0
+    S_ = lib.coq_str
+    bb = lambda x: 'true' if x else 'false'  # noqa: E731
+    if kcfg and kcfg_ok is not None:
+        for rt, r in zip(rts, out['roundtrips']):
+            sh_, fk = r.get('shape'), r.get('file_keys')
+            if not sh_ or fk is None:
+                continue
+            names = sh_['types'] + [n for n, _ in sh_['nodal'] + sh_['constraints']] + sh_['settings'] + \
+                [x for n, ts in sh_['elemental'] for x in [n] + ts]
+            if not all(all(32 <= ord(ch) < 127 for ch in n) for n in names):
+                continue
+            fem = ('tagged_fem ' + bb(sh_['nodes_ts']) + ' ' + lib.coq_list([S_(t) for t in sh_['types']]) + ' '
+                   + lib.coq_list([f'({S_(n)}, {bb(ts)})' for n, ts in sh_['nodal']]) + ' '
+                   + lib.coq_list([f'({S_(n)}, {lib.coq_list([S_(t) for t in ts])})' for n, ts in sh_['elemental']])
+                   + ' ' + lib.coq_list([f'({S_(n)}, {bb(ts)})' for n, ts in sh_['constraints']]) + ' '
+                   + lib.coq_list([S_(k) for k in sh_['settings']]))
+            tests = []
+            for c, comp in zip(COQ_COMP, COMPS):
+                keys = fk.get(files[comp], [])
+                tests.append(f'file_keys_case kcfg d{rt["id"]} {c} {lib.coq_list([S_(k) for k in keys])}')
+                n_val_files += 1
+            vlines.append((rt['id'], f'Definition d{rt["id"]} := {fem}.',
+                           'forallb (fun b => b) ' + lib.coq_list(tests)))
+    vdis = []
+    if vlines:
+        txt = list(KHEADER) + ['From FV.C05 Require Import Model ValModel.'] + [d_ for _, d_, _ in vlines] + \
+            ['Definition vcases : list (nat * bool) := [', ';\n'.join(f'({i}, {t})' for i, _, t in vlines) + '].',
+             'Goal True. idtac "@@ failing". Abort.',
+             'Eval vm_compute in map fst (filter (fun c => negb (snd c)) vcases).']
+        rc, o, e = ctx.coq_eval('CorrVals', '\n'.join(txt) + '\n', timeout=600)
+        if rc != 0:
+            ctx.log('value correspondence file failed to compile', e[-600:])
+            harness_errors.append((-1, 'CorrVals: ' + e[-300:]))
+            ctx.violation('correspondence', {'file': 'CorrVals.v'}, 'the scratch file compiles', e[-400:],
+                          'harness C05 (value cases)', found_input=False, signature={'kind': 'val-harness-error'})
+        else:
+            t = lib.parse_marked(o).get('failing', '').split(' : ')[0]
+            vdis = [int(x) for x in re.findall(r'\d+', t)]
+    ctx.corr['value_cases'] = len(vlines)
+    ctx.corr['value_files'] = n_val_files
+    ctx.corr['value_disagreements'] = len(vdis)
+    ctx.corr['disagreements'] += len(vdis)
+    ctx.log(f'value model: {len(vlines)} saved objects ({n_val_files} files) in Coq, {len(vdis)} disagreements')
+    rt_by = {rt['id']: (rt, r) for rt, r in zip(rts, out['roundtrips'])}
+    for i in vdis[:3]:
+        rt, r = rt_by[i]
+        ctx.violation('correspondence', {'roundtrip': rt},
+                      'ValModel.comp_dict gives the keys of every cache file of a saved object, in order',
+                      {'labels': r.get('shape'), 'file_keys': r.get('file_keys')},
+                      'correspondence C05 (ValModel.file_keys_case)', found_input=False,
+                      signature={'kind': 'value-correspondence', 'feature': rt['feature'].split(':')[0]},
+                      what='keys of the cache files not reproduced by the value-level model')
+
+    # ---- 7d. settings through the cache (SetModel.roundtrip) against the settings of every saved /
+    #          loaded object, classified (None / str / number / sequence of a shape; ndarray or object)
+    def pyv_coq(k_):
+        if k_[0] == 'none':
+            return 'PNone'
+        if k_[0] == 'str':
+            return f'(PStr {lib.coq_str(k_[1])})'
+        if k_[0] == 'num':
+            return f'(PNum {lib.coq_Z(k_[1])})'
+        return f'(PSeq {lib.coq_list([str(int(x)) for x in k_[1]])} {lib.coq_Z(k_[2])})'
+    slines = []
+    for rt, r in zip(rts, out['roundtrips']):
+        sk = r.get('settings_kinds')
+        if not sk:
+            continue
+        strs = [k for k, _ in sk[0] + sk[1]] + [v[1] for _, v in sk[0] if v[0] == 'str'] + \
+            [v[1][1] for _, v in sk[1] if v[1][0] == 'str']
+        if not all(isinstance(x, str) and all(32 <= ord(ch) < 127 for ch in x) for x in strs):
+            continue
+        st = dict(sk[0]).get('solution_type')
+        if st is not None and st[0] not in ('none', 'str'):
+            continue        # str() of a number / sequence is numpy's rendering: outside the executable model
+        before = lib.coq_list([f'({lib.coq_str(k)}, {pyv_coq(v)})' for k, v in sk[0]])
+        after = lib.coq_list([f'({lib.coq_str(k)}, ({"LArr" if v[0] == "arr" else "LPy"} {pyv_coq(v[1])}))'
+                              for k, v in sk[1]])
+        slines.append((rt['id'], f'settings_case {before} {after}'))
+    sdis = []
+    if slines:
+        txt = ['From Coq Require Import String List ZArith. Import ListNotations.',
+               'From FV.C05 Require Import SetModel.', 'Open Scope string_scope.',
+               'Set Printing Width 100000.', 'Set Printing Depth 100000.',
+               'Definition scases : list (nat * bool) := [',
+               ';\n'.join(f'({i}, {t})' for i, t in slines) + '].',
+               'Goal True. idtac "@@ failing". Abort.',
+               'Eval vm_compute in map fst (filter (fun c => negb (snd c)) scases).']
+        rc, o, e = ctx.coq_eval('CorrSettings', '\n'.join(txt) + '\n', timeout=600)
+        if rc != 0:
+            ctx.log('settings correspondence file failed to compile', e[-600:])
+            ctx.violation('correspondence', {'file': 'CorrSettings.v'}, 'the scratch file compiles', e[-400:],
+                          'harness C05 (settings cases)', found_input=False,
+                          signature={'kind': 'settings-harness-error'})
+        else:
+            t = lib.parse_marked(o).get('failing', '').split(' : ')[0]
+            sdis = [int(x) for x in re.findall(r'\d+', t)]
+    ctx.corr['settings_cases'] = len(slines)
+    ctx.corr['settings_disagreements'] = len(sdis)
+    ctx.corr['disagreements'] += len(sdis)
+    ctx.log(f'settings model: {len(slines)} saved/loaded settings in Coq, {len(sdis)} disagreements')
+    for i in sdis[:3]:
+        rt, r = rt_by[i]
+        ctx.violation('correspondence', {'roundtrip': rt},
+                      'SetModel.roundtrip gives the settings of the loaded object (which keys, ndarray or '
+                      'Python object, shape)',
+                      {'settings_saved_loaded': r.get('settings_kinds')},
+                      'correspondence C05 (SetModel.settings_case) / C05_settings_roundtrip',
+                      found_input=False,
+                      signature={'site': 'save/load round trip', 'feature': rt['feature'].split(':')[0],
+                                 'outcome': 'settings-differ'},
+                      what='settings of the loaded object differ from np.savez/np.load + the solution_type '
+                           'handling the model describes')
+
     # ---- 7a. real source directories read twice (parse, then cache)
     n_tw_bad = 0
     for tw, r in zip(tws, out.get('twice', [])):
@@ -1037,6 +1192,30 @@ def main(ctx):
                       'cfg_ok SaveCfg.cfg = true', 'false, and the model witness did not reproduce on the '
                       'implementation within the explored histories',
                       'C05_run_crash_safe_refuted', found_input=False, signature={'kind': 'cfg-rejected-no-repro'})
+    # ---- 9. how the model was tied to the tree under test in this run
+    tie = {}
+    n_h = ctx.corr.get('cases', 0)
+    n_k = ctx.corr.get('key_cases', 0)
+    if 'save' in degraded:
+        tie['save/read region'] = (f"H (translator could not read FEMData.save / read_directory / "
+                                   f"read_npy_directory: {degraded['save']}; baseline model + widened "
+                                   f"correspondence, {n_h} histories + {len(rts)} round trips)")
+    elif tie_ok:
+        tie['save/read region'] = f'T (translated on this run) + H ({n_h} histories)'
+    if 'keys' in degraded:
+        tie['key scheme'] = (f"H (translator could not read to_dict / from_dict / _split_dict_data: "
+                             f"{degraded['keys']}; baseline model + widened correspondence, {n_k} key cases "
+                             f"+ {len(rts)} round trips)")
+    elif ktie_ok:
+        tie['key scheme'] = f'T (translated on this run) + H ({n_k} key cases)'
+    ctx.notes['tie'] = tie
+    if degraded:
+        ctx.trusted.append('this run: ' + '; '.join(tie[k] for k in tie if tie[k].startswith('H (')))
+        for o in ctx.obligations:
+            if o['name'].startswith('C05_run_') and not o.get('note'):
+                o['note'] = ('instantiated on the BASELINE configuration of the region(s) the translator could '
+                             'not read (' + ', '.join(sorted(degraded)) + '); tied to the tree under test by '
+                             'the widened correspondence only')
     ctx.exhaustive = False
     return ctx.finish()
 
@@ -1048,7 +1227,12 @@ def replay(path):
     ctx = lib.Ctx('C05', 'quick')
     if not Path(path).exists():      # lib.Ctx clears evidence/replay/C05_*.json
         Path(path).write_text(text)
-    cfg, _ = c05_effects.translate(str(lib.REPO))
+    try:
+        cfg, _ = c05_effects.translate(str(lib.REPO))
+    except c05_effects.TranslateError as e:
+        print('save translator could not read the tree under test (%s): baseline model' % str(e)[:200])
+        cfg = json.loads(BASELINE.read_text())['save_cfg']
+        cfg['load_names'] = [tuple(x) for x in cfg['load_names']]
     files = {COMPS[COQ_COMP.index(k)]: f for k, f in cfg['load_names']}
     if 'ops' in c:
         c['ops'] = norm_ops(c['ops'])
